@@ -305,6 +305,24 @@ def run_search(shard):
                 b = {frozenset(x.items()) for x in q.get_mapping(t, automorphism_filter=False, searching_scope=sc, _cython=False)}
                 if a != b:
                     acc.fail('bit-mask and reference matcher differ under a searching scope :: %s' % s, case=ts['tag'])
+        # the same target with its atoms inserted in descending / rotated number order (storage order differs from ascending numbers), with and without a scope
+        n_ = len(ts['atoms'])
+        rot = list(range(2, n_ + 1)) + [1]
+        for vname, kw in (('atoms inserted in reverse', {'atom_order': list(range(n_))[::-1]}), ('rotated numbers, reverse insertion', {'numbers': rot, 'atom_order': list(range(n_))[::-1]})):
+            if n_ < 2:
+                continue
+            tv = M.to_chython(ts, **kw)
+            for qi_, (q, s) in enumerate(qs):
+                if (qi_ + ti) % 3:
+                    continue
+                compare(acc, q, tv, 'search (%s) smarts=%s | target=%s' % (vname, s, ts['tag']))
+                acc.transitions += 2
+                for sc in (sorted(tv)[:max(1, n_ // 2)], sorted(tv)[n_ // 2:]):
+                    a = {frozenset(x.items()) for x in q.get_mapping(tv, automorphism_filter=False, searching_scope=sc, _cython=True)}
+                    b = {frozenset(x.items()) for x in q.get_mapping(tv, automorphism_filter=False, searching_scope=sc, _cython=False)}
+                    if a != b:
+                        acc.fail('bit-mask and reference matcher differ under a searching scope (%s) :: %s' % (vname, s), case=ts['tag'])
+                        break
     rows = M.corpus(stride=32 if tier == 'quick' else 4)
     cage = ['C1C2CC3C1C3C2', 'C12C3C4C1C5C2C3C45', 'C1CC2CCC1C2', 'C1C2C3C1C23', 'C12C3C1C23', 'C1CCC2(CC1)CCCC2', '[Pt]1CCCC1', 'C1CC[Pt]C1', 'C1CC[La]C1', 'c1ccc2ccccc2c1',
             'C1CC1C1CC1', 'c1ccccc1-c1ccccc1']
